@@ -343,26 +343,43 @@ class LineHooks(object):
         self.instr_offsets = {}     # code -> set(offsets) that are yield points
         self.free_running = None    # optional callable for the free-running tier
 
-    def install(self, codes, instr_attr_names=None):
+    def install(self, codes, instr_attr_names=None, lines=True):
+        """instr_attr_names: None (line events only) | "ALL" (every instruction) | a set of attribute names (their loads/stores) |
+        "STORES": every attribute / global / subscript STORE in `codes` outside constructors, plus every load of a name that is stored
+        somewhere (the accesses to mutable shared state: a data race needs a write).  lines=False: no LINE events."""
         m = self.mon
         try:
             m.use_tool_id(TOOL_ID, "vf-sched")
         except ValueError:
             pass
-        ev = m.events.LINE
+        ev = m.events.LINE if lines else 0
         m.register_callback(TOOL_ID, m.events.LINE, self._on_line)
         if instr_attr_names:
             m.register_callback(TOOL_ID, m.events.INSTRUCTION, self._on_instr)
+        stored = set()
+        if instr_attr_names == "STORES":
+            for code in codes:
+                if code.co_name in ("__init__", "__setstate__", "__new__"):
+                    continue
+                for ins in dis.get_instructions(code):
+                    if ins.opname in ("STORE_ATTR", "STORE_GLOBAL", "DELETE_ATTR", "DELETE_GLOBAL"):
+                        stored.add(ins.argval)
+        self.stored_names = stored
         for code in codes:
             e = ev
             if instr_attr_names:
                 offs = set()
                 for ins in dis.get_instructions(code):
-                    if instr_attr_names == "ALL" or (ins.opname in ("LOAD_ATTR", "STORE_ATTR", "LOAD_METHOD") and ins.argval in instr_attr_names):
+                    if instr_attr_names == "STORES":
+                        if ins.opname in ("STORE_ATTR", "STORE_GLOBAL", "DELETE_ATTR", "DELETE_GLOBAL", "STORE_SUBSCR", "DELETE_SUBSCR"):
+                            offs.add(ins.offset)
+                        elif ins.opname in ("LOAD_ATTR", "LOAD_GLOBAL", "LOAD_METHOD") and ins.argval in stored:
+                            offs.add(ins.offset)
+                    elif instr_attr_names == "ALL" or (ins.opname in ("LOAD_ATTR", "STORE_ATTR", "LOAD_METHOD") and ins.argval in instr_attr_names):
                         offs.add(ins.offset)
                 if offs:
                     self.instr_offsets[code] = offs
-                    e = ev | m.events.INSTRUCTION
+                    e = e | m.events.INSTRUCTION
             m.set_local_events(TOOL_ID, code, e)
             self.codes.append(code)
         self.active = True
@@ -549,3 +566,113 @@ def first_use_purity(ctx, codes_from, make_jobs, rng, runs, cls="first_use_calls
     for _ in range(runs):
         with fresh_ecdsa() as M:
             concurrent_purity(ctx, codes_from(M), make_jobs(M), rng, 1, cls=cls, **kw)
+
+
+def stateful_codes(*modules):
+    """Code objects of `modules` (functions, methods, nested code) that write a module global, read a module-level mutable
+    container (list / dict / set / bytearray), or carry a mutable default argument: the places where state outliving a call -
+    lazily built tables, memos, registries - can live.  Yield points there are what first-use / shared-memo races need."""
+    import types
+    out, seen = [], set()
+
+    def funcs_of(mod):
+        for v in list(vars(mod).values()):
+            if isinstance(v, types.FunctionType) and v.__module__ == mod.__name__:
+                yield v
+            elif isinstance(v, type) and v.__module__ == mod.__name__:
+                for w in vars(v).values():
+                    if isinstance(w, (staticmethod, classmethod)):
+                        w = w.__func__
+                    if isinstance(w, property):
+                        w = w.fget
+                    if isinstance(w, types.FunctionType):
+                        yield w
+
+    def nested(code):
+        yield code
+        for c in code.co_consts:
+            if isinstance(c, types.CodeType):
+                for x in nested(c):
+                    yield x
+    for mod in modules:
+        g = vars(mod)
+        for f in funcs_of(mod):
+            mut_default = any(isinstance(d, (list, dict, set, bytearray)) for d in (f.__defaults__ or ())) or any(
+                isinstance(d, (list, dict, set, bytearray)) for d in (f.__kwdefaults__ or {}).values())
+            for code in nested(f.__code__):
+                if code in seen:
+                    continue
+                hit = mut_default
+                if not hit:
+                    for ins in dis.get_instructions(code):
+                        if ins.opname in ("STORE_GLOBAL", "DELETE_GLOBAL"):
+                            hit = True
+                            break
+                        if ins.opname in ("LOAD_GLOBAL", "LOAD_NAME") and isinstance(g.get(ins.argval), (list, dict, set, bytearray)):
+                            hit = True
+                            break
+                if hit:
+                    seen.add(code)
+                    out.append(code)
+    return out
+
+
+class _NoFresh(object):
+    def __enter__(self):
+        return None
+
+    def __exit__(self, *a):
+        return False
+
+
+def first_use_systematic(ctx, codes_from, make_jobs, rng, pairs, cls="first_use_systematic", max_positions=60, timeout=30.0, fresh=True, pick=None):
+    """Every single-preemption schedule of a first use: on a fresh instance of the package thread A makes the first call; at its
+    i-th yield point (for EVERY i, up to max_positions sampled) it is suspended, thread B makes its call to completion, A
+    resumes.  Results must equal the sequential ones."""
+    for _ in range(pairs):
+        idx = None
+        st = {"n": 0}
+
+        def run_once(delays):
+            with (fresh_ecdsa() if fresh else _NoFresh()) as M:
+                jobs = make_jobs(M)
+                if st.get("idx") is None:
+                    st["idx"] = pick(jobs, rng) if pick else (rng.randrange(len(jobs)), rng.randrange(len(jobs)))
+                picked = [jobs[st["idx"][0]], jobs[st["idx"][1]]]
+                hooks = LineHooks()
+                hooks.install(codes_from(M), None)
+                try:
+                    dec = delay_decider(delays)
+                    s = Sched(dec, max_steps=400000)
+                    res = {}
+
+                    def body(i, job):
+                        def f():
+                            res[i] = job[1](*job[2])
+                        return f
+                    for i, job in enumerate(picked):
+                        s.spawn(body(i, job), "T%d" % i)
+                    hooks.sched = s
+                    ok = s.run(timeout=timeout)
+                    hooks.sched = None
+                finally:
+                    hooks.uninstall()
+                ctx.case(cls, key="%s|%s|%r" % (picked[0][0], picked[1][0], delays[:1]), nontrivial=bool(delays))
+                ctx.count(cls + ".yield_points", s.steps)
+                for i, (label, fn, args, expected) in enumerate(picked):
+                    t = s.ts[i]
+                    sa = args if len(repr(args)) < 200 else "(...)"
+                    if t.exc is not None:
+                        ctx.violation(("raises_on_concurrent_first_use:" if fresh else "raises_under_single_preemption:") + label, "%s%r raised %s: %s (%sthread 0 suspended at its yield point %r while thread 1 ran %s)" % (
+                            label, sa, type(t.exc).__name__, t.exc, "first calls into a fresh package instance; " if fresh else "", delays, picked[1][0]), dict(jobs=[j[0] for j in picked], delays=list(delays)))
+                    elif ok:
+                        good = expected(res.get(i)) if callable(expected) else res.get(i) == expected
+                        if not good:
+                            ctx.violation(("wrong_on_concurrent_first_use:" if fresh else "wrong_under_single_preemption:") + label, "%s%r = %r, sequential result %r (%sthread 0 suspended at its yield point %r while thread 1 ran %s)" % (
+                                label, sa, res.get(i), None if callable(expected) else expected, "first calls into a fresh package instance; " if fresh else "", delays, picked[1][0]), dict(jobs=[j[0] for j in picked], delays=list(delays)))
+                if not ok and s.aborted == "watchdog":
+                    ctx.count("watchdog_inconclusive")
+                return min(dec.state["i"], max_positions)
+        for _d in enumerate_delays(run_once, 1, None, None):
+            if ctx.expired():
+                break
